@@ -1217,22 +1217,52 @@ def rule_r10(chk, prog, cg):
                 nested_fork.append((m1, f1, w1))
     ps = params_of(init)
     flag = ps[1] if len(ps) > 1 else None
-    # branch of __init__ for the main process
+    # assignments of "enabled" in __init__, by process kind: decided by the
+    # facts about parent_process() at the assignment (through locals), or
+    # by the test of a conditional expression
     main_asg, work_asg, work_body = [], [], []
+
+    def kind_of(facts_):
+        for (t, pol) in facts_:
+            tt = t.replace(' ', '')
+            if 'parent_process()' not in tt:
+                continue
+            if tt.endswith('isNone'):
+                return 'main' if pol else 'work'
+            if tt.endswith('isnotNone'):
+                return 'work' if pol else 'main'
+        return None
+
+    for st in walk_no_nested(init):
+        if not (isinstance(st, ast.Assign) and any(
+                unparse(t_) == f'{ps[0]}.enabled' for t_ in st.targets)):
+            continue
+        k_ = kind_of(facts_at(init, st))
+        if k_ == 'main':
+            main_asg.append(st)
+        elif k_ == 'work':
+            work_asg.append(st)
+        elif isinstance(st.value, ast.IfExp):
+            from ..astutil import expand_locals as _el
+            tt = unparse(_el(init, st.value.test)).replace(' ', '')
+            if 'parent_process()' in tt and tt.endswith(('isNone',
+                                                          'isnotNone')):
+                mainv, workv = (st.value.body, st.value.orelse) \
+                    if tt.endswith('isNone') else (st.value.orelse,
+                                                   st.value.body)
+                fake = ast.Assign(targets=st.targets, value=mainv)
+                ast.copy_location(fake, st)
+                main_asg.append(fake)
     for st in ast.walk(init):
-        if isinstance(st, ast.If) and 'parent_process()' in unparse(st.test):
-            t = unparse(st.test).replace(' ', '')
-            main_first = t.endswith('isNone') and 'not' not in t
-            mb, wb = (st.body, st.orelse) if main_first else (st.orelse,
-                                                               st.body)
-            for blk, acc in ((mb, main_asg), (wb, work_asg)):
-                for x in blk:
-                    for y in ast.walk(x):
-                        if isinstance(y, ast.Assign) and any(
-                                unparse(t_) == f'{ps[0]}.enabled'
-                                for t_ in y.targets):
-                            acc.append(y)
-            work_body = wb
+        if isinstance(st, ast.If):
+            k_t = kind_of([(unparse(st.test), True)])
+            if k_t is None:
+                from ..astutil import expand_locals as _el
+                k_t = kind_of([(unparse(_el(init, st.test)), True)])
+            if k_t == 'main':
+                work_body = work_body + st.orelse
+            elif k_t == 'work':
+                work_body = work_body + st.body
     if not main_asg:
         raise AnalysisError('C04.R10: Profiler.__init__: assignment of '
                             '"enabled" for the main process not found')
